@@ -19,7 +19,9 @@ EXPLANATION = (
     "is reset by initialize(), which Network calls before reading a file / creating a reaction from a string; R5 the renderers (templateloader.py, "
     "patches.py) never write to an object they were given (parameters and locals aliasing them): no in-place method, item/attribute store or del -- "
     "the one sanctioned exception (network.reindex(), idempotent) is listed; R6 outside species.py the process-wide Species tables are read only by the "
-    "listed readers (name parsing under installation, the Enzo patch's save/restore).")
+    "listed readers (name parsing under installation, the Enzo patch's save/restore); R7 a renderer keeps nothing between two renderings (helper objects live inside one "
+    "rendering call); R8 Species.__lt__ -- the order sorted() gives the SET of species in Network.species -- compares a key that contains the name itself on both sides, so "
+    "that two different species never tie and fall back on the hash-seed dependent set order (shared with C15.R7).")
 ASSUMPTIONS = [
     "byte identity of two actual runs is not decided",
     "Jinja's list_templates() returns a sorted list",
@@ -156,6 +158,12 @@ def check(ctx):
     _r5(ctx, pkg)
     _r6(ctx, pkg)
     stateless_renderer(ctx, pkg, "R7")
+    # R8 the order of Network.species (sorted() of a SET of species: IDX_ macros, rows and columns of everything generated) is decided
+    # by Species.__lt__ alone only if two different species never tie -- a tie leaves the two in the set's iteration order, which
+    # follows the hash seed (shared with C15.R7, where the same order makes the formatted reactions canonical)
+    from .c15 import _r7 as total_order
+    ctx.absorb(lambda sub: total_order(sub, package(sub.tree), "R8", consequence="and `Network.species` sorts a SET: tied species (CO / #CO) stay in the set's iteration order, which follows "
+                                       "the interpreter's hash seed -- every IDX_ macro, the rows of fex / jac and the tables of constants change from run to run"), "R8")
 
 
 # ------------------------------------------------------------------ R7  a renderer keeps nothing between two renderings
@@ -448,6 +456,12 @@ def _r5(ctx, pkg):
                 nwrites += 1
                 text = " ".join(hit.split())
                 why = SANCTIONED_INPUT_WRITES.get((qual, text))
+                if why is None and isinstance(n, ast.Call) and not n.args and not n.keywords and isinstance(n.func.value, ast.Name):
+                    # the same sanctioned call by ROLE: on the input object under whatever name the parameter has, in the sanctioned
+                    # function or in a private helper that is a piece of it (reached from it and called from nowhere else)
+                    for (aq, atext), w in SANCTIONED_INPUT_WRITES.items():
+                        if atext.split(".", 1)[-1] == f"{n.func.attr}()" and (qual == aq or _helper_of(pkg, qual, aq)):
+                            why = w
                 ctx.check(why is not None, "R5", f"{qual}:writes input:{text[:70]}", (f, n.lineno),
                           f"sanctioned: {why}" if why else
                           "the renderer changes an object it was given (the network's own table/list): a second rendering of the same network starts from different data -- the output depends on how often it was rendered",
@@ -545,6 +559,12 @@ def _r2(ctx, pkg):
     for f, line in now:
         fn = _enclosing(pkg.modules[f], None, line)
         ok = (f, fn) in allowed_now or any(f == af and _helper_of(pkg, fn, aq) for af, aq in allowed_now)
+        if not ok and fn and "." not in fn and _private(fn):
+            # a private module-level function used by nobody but a sanctioned function of the same module is a piece of it
+            users = {_enclosing(pkg.modules[f], x) for x in ast.walk(pkg.modules[f]) if isinstance(x, ast.Name) and x.id == fn and isinstance(x.ctx, ast.Load)}
+            elsewhere = any(isinstance(x, (ast.Name, ast.Attribute, ast.alias)) and (getattr(x, "id", None) == fn or getattr(x, "attr", None) == fn or getattr(x, "name", "").split(".")[-1] == fn)
+                            for g_ in pkg.files if g_ != f for x in ast.walk(pkg.modules[g_]))
+            ok = bool(users) and not elsewhere and all((f, u) in allowed_now or any(f == af and _helper_of(pkg, u, aq) for af, aq in allowed_now) for u in users)
         ctx.check(ok, "R2", f"{f}:{fn}:datetime.now", (f, line), "embedded date (excluded by the property)" if ok else "an additional time source reaches generated output")
     for f, line, s in bad:
         # render.py checks directories with os.listdir only for emptiness
@@ -694,9 +714,8 @@ def discovered_state(ctx, pkg, rule="R3"):
             if isinstance(n, ast.ClassDef):
                 a = set()
                 i = inst.setdefault(n.name, set())
-                # the annotated names of a @dataclass / NamedTuple body are the FIELDS of its instances (the generated __init__ binds them
-                # on self; a mutable class-level default is refused by dataclasses), not class attributes -- ClassVar aside; a bare
-                # annotation `x: T` binds nothing in any class
+                # the annotated fields of a dataclass / NamedTuple are set on every INSTANCE by the generated constructor (a mutable
+                # default must be a default_factory: one object per instance); a bare annotation `x: T` binds nothing at class level
                 record = any("dataclass" in ast.unparse(d) for d in n.decorator_list) or any(ast.unparse(b).split(".")[-1] == "NamedTuple" for b in n.bases)
                 for st in n.body:
                     if isinstance(st, ast.Assign):
@@ -885,7 +904,13 @@ def _r3(ctx, pkg):
             continue
         seen.add(key)
         if f == "naunet/patches.py":
-            ctx.ok("R3", key, (f, line), "EnzoPatch.render saves and restores the element list around its temporary additions") if _patch_restores(pkg) else \
+            if _patch_restores(pkg):
+                ctx.ok("R3", key, (f, line), "EnzoPatch.render saves and restores the element list around its temporary additions")
+            elif any(isinstance(c, ast.Call) and isinstance(c.func, ast.Attribute) and c.func.attr in ("set_known_elements", "remove_known_elements", "reset")
+                     for c in ast.walk(pkg.modules[f])):
+                # something is handed back to Species, but not in the save-a-copy / restore-it spelling this rule reads
+                ctx.unrec("R3", key, (f, line), "the patch renderer changes the known-element list; how it restores it is not read")
+            else:
                 ctx.bad("R3", key, (f, line), "the patch renderer changes the known-element list and does not restore it")
             continue
         ok = q in SANCTIONED or _only_called_by_sanctioned(pkg, q)
@@ -913,6 +938,17 @@ def _r3(ctx, pkg):
                   [ln for ln in parses if ln not in deleg]
             if deleg and min(deleg) < min(own or [10 ** 9]):
                 ctx.ok("R3", f"{key}:installation", (NF, fn.lineno), "delegates to an installing entry point before any species name is parsed")
+                continue
+            # positive evidence only when nothing the method uses could install the lists: a decorator, or a function / class of the
+            # module / a method it names whose body calls set_known_elements is a restructuring this rule does not follow
+            named = {n.id for n in ast.walk(fn) if isinstance(n, ast.Name)} | {n.attr for n in ast.walk(fn) if isinstance(n, ast.Attribute)}
+            hidden = []
+            for x in sorted(named):
+                cand = pkg.functions.get((NF, x)) or ci.methods.get(x) or (pkg.classes[x].node if x in pkg.classes and pkg.classes[x].file == NF else None)
+                if cand is not None and cand is not fn and any(isinstance(c, ast.Call) and isinstance(c.func, ast.Attribute) and c.func.attr == "set_known_elements" for c in ast.walk(cand)):
+                    hidden.append(x)
+            if hidden:
+                ctx.unrec("R3", f"{key}:installation", (NF, fn.lineno), f"Network.{mname} parses species names; whether {hidden} installs the lists first is not decided")
                 continue
             ctx.bad("R3", f"{key}:installation", (NF, fn.lineno),
                     f"Network.{mname} parses species names but never installs this network's element lists: it uses whatever lists the last network left in Species")
@@ -1139,7 +1175,16 @@ def krome_reset(ctx, pkg, rule="R4"):
                         if isinstance(e, ast.Attribute) and isinstance(e.value, ast.Name) and e.value.id == "cls":
                             reset.add(e.attr)
     ctx.floor(rule, "directive attributes", len(mutated), 3, (KR, pre.lineno))
+    # ways initialize() may reset an attribute that the scan above does not see: setattr / vars / __dict__ on the class, a call on
+    # cls of a method that was not followed, a base-class initialize
+    unread = sorted({ast.unparse(c.func)[:40] for part in with_helpers(ini) for c in ast.walk(part) if isinstance(c, ast.Call) and (
+        (isinstance(c.func, ast.Name) and c.func.id in ("setattr", "vars", "super")) or
+        (isinstance(c.func, ast.Attribute) and isinstance(c.func.value, ast.Name) and c.func.value.id == "cls" and not _private(c.func.attr)))}
+        | {"__dict__" for part in with_helpers(ini) for n in ast.walk(part) if isinstance(n, ast.Attribute) and n.attr == "__dict__"})
     for a in sorted(mutated):
+        if a not in reset and unread:
+            ctx.unrec(rule, f"KROMEReaction.initialize resets {a}", (KR, ini.lineno), f"whether initialize() resets `{a}` is hidden behind {unread}")
+            continue
         ctx.check(a in reset, rule, f"KROMEReaction.initialize resets {a}", (KR, ini.lineno),
                   f"`{a}` is reset before every file" if a in reset else
                   f"`{a}` is changed by directive lines (preprocessing) but not reset in initialize(): directives of one file (also of a read that raised half-way) act on the next file")
@@ -1169,8 +1214,16 @@ def krome_reset(ctx, pkg, rule="R4"):
                 out.append(_guard_text([(c, pol)]))
         return out
     net = pkg.cls("Network")
+    import copy
+    from ..normalize import inline_context_managers
+
+    def module_level(name):
+        ci_ = pkg.classes.get(name)
+        return pkg.functions.get((NF, name)) or (ci_.node if ci_ is not None and ci_.file == NF else None)
     for mname in ("add_reaction_from_file", "add_reaction"):
-        fn = _inline_context_managers(net.methods[mname], pkg.modules[NF])       # the reset may be the entry of a `with` block
+        # a reset that happens on ENTERING a `with` block (a context manager of the module bracketing the reading) is the reset
+        # written in front of the block
+        fn = inline_context_managers(copy.deepcopy(net.methods[mname]), module_level)
         fl = Flow(fn, NF)
         init_calls = [f for f in fl.facts if f.kind == "call" and f.target == "initialize" and f.value is not None and f.value[0] == "meth" and not f.value[3]]
         reads_lines = [n.lineno for n in ast.walk(fn) if isinstance(n, ast.Call) and ast.unparse(n.func) == "self._add_reaction"]
@@ -1199,17 +1252,24 @@ def krome_reset(ctx, pkg, rule="R4"):
                           f"the per-file reset of the format class (in `{h}`) is skipped when `{extra[0]}` does not hold: directive state (@format, @common, @var) of the previous file "
                           "decodes the next one", expected=f"{_src(recv)[:60]}.initialize() on every path that reads", found=" and ".join(extra))
                 continue
-        ok = len(init_calls) == 1 and bool(reads_lines) and init_calls[0].line < min(reads_lines)
-        # a violation needs positive evidence: the one reset call stands after the first parse, or no `.initialize()` is written
-        # anywhere in the module (the call was removed).  A reset that lives elsewhere in the module (a context manager entered by
-        # `with`, a session object) or several reset calls are a shape this rule does not follow
-        elsewhere = any(isinstance(n, ast.Call) and isinstance(n.func, ast.Attribute) and n.func.attr == "initialize" for n in ast.walk(pkg.modules[NF]))
-        if ok or (len(init_calls) == 1 and reads_lines) or (not init_calls and not elsewhere):
-            ctx.check(ok, rule, f"Network.{mname}:initialize before reading", (NF, fn.lineno), "the format class is initialised before any line is parsed")
-        else:
-            ctx.unrec(rule, f"Network.{mname}:initialize before reading", (NF, fn.lineno),
-                      f"found {len(init_calls)} direct initialize() call(s) and {len(reads_lines)} self._add_reaction call(s) in the method" + ("; a reset is written elsewhere in the module" if elsewhere and not init_calls else "")
-                      + ": where the format class is reset relative to the parsing is not understood")
+        K = f"Network.{mname}:initialize before reading"
+        if not init_calls:
+            # positive evidence only when nothing the method uses could do the reset: a function / class of the module it names
+            # (a session object, a decorator, a wrapper) that calls initialize() somewhere is a restructuring this rule cannot follow
+            named = {n.id for n in ast.walk(fn) if isinstance(n, ast.Name)} | {n.attr for n in ast.walk(fn) if isinstance(n, ast.Attribute)}
+            hidden = sorted(x for x in named if (module_level(x) or net.methods.get(x)) is not None and (module_level(x) or net.methods.get(x)) is not net.methods[mname] and any(
+                isinstance(c, ast.Call) and isinstance(c.func, ast.Attribute) and c.func.attr == "initialize" for c in ast.walk(module_level(x) or net.methods.get(x))))
+            if hidden:
+                ctx.unrec(rule, K, (NF, fn.lineno), f"the format class is initialised inside {hidden}: order and conditions are not decided")
+            else:
+                ctx.bad(rule, K, (NF, fn.lineno), "the format class is never initialised before the lines are parsed: directive state of the previous file decodes this one",
+                        expected="rclass.initialize() before the first _add_reaction", found="no call of initialize()")
+            continue
+        if len(init_calls) > 1 or not reads_lines:
+            ctx.unrec(rule, K, (NF, fn.lineno), f"{len(init_calls)} calls of initialize() and {len(reads_lines)} parsing calls: which reset belongs to which read is not decided")
+            continue
+        ok = init_calls[0].line < min(reads_lines)
+        ctx.check(ok, rule, K, (NF, fn.lineno), "the format class is initialised before any line is parsed")
         # ... for EVERY file / string: the only condition it may depend on is that the format class exists
         if len(init_calls) == 1:
             f = init_calls[0]
@@ -1355,4 +1415,66 @@ BENIGN += [
 MUTANTS += [
     {"name": "patch-remembers-rendered-info", "file": "naunet/patches.py", "old": "    def _render_derived_field(self, info: NetworkInfo, path: Path | str = \"./\") -> None:\n",
      "new": "    def _render_derived_field(self, info: NetworkInfo, path: Path | str = \"./\") -> None:\n        self._info = info\n", "rules": ["R7"]},
+]
+
+# ---- R4: the per-file reset performed on ENTERING a context manager of the module (read in place by normalize.inline_context_managers) ----
+_FILE_INIT = ("        if rclass:\n            rclass.initialize()\n        else:\n            raise RuntimeError(f\"Unknown format: {format}\")\n\n"
+              "        with open(filename, \"r\") as networkfile:\n")
+_FILE_FINAL = "                    raise e\n\n        rclass.finalize()\n"
+_FACTORY_AT = "def _reaction_factory(react_string: str, format: str) -> Reaction:\n"
+_CM_GEN = ("from contextlib import contextmanager\n\n\n@contextmanager\ndef _reading(rclass, format):\n    if not rclass:\n        raise RuntimeError(f\"Unknown format: {format}\")\n"
+           "    rclass.initialize()\n    yield rclass\n    rclass.finalize()\n\n\n")
+_CM_CLS = ("class _Reading:\n    def __init__(self, rclass, format, fresh=True):\n        self.rclass = rclass\n        self.format = format\n        self.fresh = fresh\n\n"
+           "    def __enter__(self):\n        if not self.rclass:\n            raise RuntimeError(f\"Unknown format: {self.format}\")\n%s"
+           "        return self\n\n    def __exit__(self, exc_type, exc, tb):\n        if exc_type is None:\n            self.rclass.finalize()\n        return False\n\n\n")
+BENIGN += [
+    {"name": "file-reset-on-entering-generator-context-manager", "edits": [
+        {"file": NF, "old": _FACTORY_AT, "new": _CM_GEN + _FACTORY_AT},
+        {"file": NF, "old": _FILE_INIT, "new": "        with _reading(rclass, format), open(filename, \"r\") as networkfile:\n"},
+        {"file": NF, "old": _FILE_FINAL, "new": "                    raise e\n"}]},
+    {"name": "file-reset-on-entering-session-object", "edits": [
+        {"file": NF, "old": _FACTORY_AT, "new": _CM_CLS % "        self.rclass.initialize()\n" + _FACTORY_AT},
+        {"file": NF, "old": _FILE_INIT, "new": "        with _Reading(rclass, format):\n          with open(filename, \"r\") as networkfile:\n"},
+        {"file": NF, "old": _FILE_FINAL, "new": "                    raise e\n"}]},
+]
+MUTANTS += [
+    # the session resets the format class only for a network that is still empty
+    {"name": "session-object-resets-only-when-fresh", "edits": [
+        {"file": NF, "old": _FACTORY_AT, "new": _CM_CLS % "        if self.fresh:\n            self.rclass.initialize()\n" + _FACTORY_AT},
+        {"file": NF, "old": _FILE_INIT, "new": "        with _Reading(rclass, format, fresh=not self.reaction_list):\n          with open(filename, \"r\") as networkfile:\n"},
+        {"file": NF, "old": _FILE_FINAL, "new": "                    raise e\n"}], "rules": ["R4"]},
+    # the generator resets AFTER the block: the lines are decoded with the previous file's directives
+    {"name": "generator-context-manager-resets-on-leaving", "edits": [
+        {"file": NF, "old": _FACTORY_AT, "new": _CM_GEN.replace("    rclass.initialize()\n    yield rclass\n", "    yield rclass\n    rclass.initialize()\n") + _FACTORY_AT},
+        {"file": NF, "old": _FILE_INIT, "new": "        with _reading(rclass, format), open(filename, \"r\") as networkfile:\n"},
+        {"file": NF, "old": _FILE_FINAL, "new": "                    raise e\n"}], "rules": ["R4"]},
+]
+
+# ---- R8: the species order is total over names (shared with C15.R7) ----------------------------------------------------------------
+_LT = "            return self.name < o.name\n"
+_SORTKEY = ("    @property\n    def _sortkey(self):\n        if self.is_electron:\n            return (\"e\", -1, 0)\n        group = self.grain_group if self.is_grain else self.surface_group\n"
+            "        return (self.basename, self.charge, group or 0)\n\n    def __repr__(self) -> str:\n")
+MUTANTS += [
+    {"name": "species-order-by-key-that-forgets-the-phase", "edits": [
+        {"file": SP, "old": _LT, "new": "            return self._sortkey < o._sortkey\n"},
+        {"file": SP, "old": "    def __repr__(self) -> str:\n", "new": _SORTKEY}], "rules": ["R8"]},
+    {"name": "species-order-by-alias", "file": SP, "old": _LT, "new": "            return self.alias < o.alias\n", "rules": ["R8"]},
+]
+BENIGN += [
+    {"name": "species-order-by-name-then-charge", "file": SP, "old": _LT, "new": "            return (self.name, self.charge) < (o.name, o.charge)\n"},
+]
+
+# ---- R3: fields of a dataclass are per-instance; a mutable bound in a plain class body is shared ------------------------------------
+_TALLY_DC = ("from dataclasses import field\n\n\n@dataclass\nclass _Tally:\n    n: int = 0\n    names: list = field(default_factory=list)\n\n"
+             "    def note(self, name: str) -> None:\n        self.n += 1\n        self.names.append(name)\n\n\n")
+_TALLY_SHARED = ("class _Tally:\n    names = []\n\n    def note(self, name: str) -> None:\n        self.names.append(name)\n\n\n")
+BENIGN += [
+    {"name": "dataclass-accumulator-local-to-render", "edits": [
+        {"file": TL, "old": _TL_CLS, "new": _TALLY_DC + _TL_CLS},
+        {"file": TL, "old": _RENDER_HEAD, "new": _RENDER_HEAD + "        tally = _Tally()\n        tally.note(proj_name)\n"}]},
+]
+MUTANTS += [
+    {"name": "accumulator-list-bound-in-the-class-body", "edits": [
+        {"file": TL, "old": _TL_CLS, "new": _TALLY_SHARED + _TL_CLS},
+        {"file": TL, "old": _RENDER_HEAD, "new": _RENDER_HEAD + "        tally = _Tally()\n        tally.note(proj_name)\n"}], "rules": ["R3"]},
 ]
